@@ -90,7 +90,14 @@ contract(B + 'optimize', 'C07', types={'starting_values': 'np.ndarray | None'},
                   'bounds_are_those_of_the_id_manager': "opt_bounds_ok(1, 'bounds', self.id_manager.bounds)",
                   'variable_names_are_the_free_names_or_absent': "opt_arg(1, 'variable_names') is None or "
                                                                  "same(opt_arg(1, 'variable_names'), self.id_manager.free_betas.names)",
+                  # round 3 (m1): the names are handed over exactly when the point is short enough to be reported
+                  'variable_names_absent_iff_too_many_parameters_given_start':
+                      "implies(starting_values is not None, iff(opt_arg(1, 'variable_names') is None, "
+                      "len(starting_values) > self.max_number_parameters_to_report))",
+                  # (default start: the length of numpy.array(list) is not modelled, so that case is not pinned)
                   'parameters_are_the_algorithm_parameters': "same(opt_arg(1, 'parameters'), self.algo_parameters)",
+                  # round 3 (m1): ... and that dict is the one built for THIS algorithm name by this call (not a stale one of an earlier run)
+                  **{f'parameters_built_for_{k}': v for k, v in CASES.items()},
                   'result_is_the_algorithms': 'same(result, opt_result(1))'})
 
 # ---- packaging of the solution and of the final evaluation into the raw results ---------------------------------------------
@@ -98,6 +105,17 @@ R = 'biogeme.results.'
 field_type('RawResults', 'betas', 'list[Any]')
 field_type('BIOGEME', 'database', 'Database')
 field_type('RawResults', 'betaNames', 'list[str]')     # annotated tuple[str] in the source; it is the id manager's list of names
+# round 3 (m1): the source annotates these fields with a type the stored value need not have (`self.gradientNorm: float = ... else None`,
+# `self.bootstrap: np.ndarray = bootstrap` with default None, `self.g: np.ndarray = f_g_h_b.gradient` of an Optional field).  A field
+# read in a postcondition is assumed to have its annotated type: with the source annotation the clause was discharged from a
+# contradiction (is_num(None)) when a mutant stored None -- declared with the type the value really has.
+field_type('RawResults', 'gradientNorm', 'float | None')
+field_type('RawResults', 'bootstrap', 'Any')
+field_type('RawResults', 'g', 'Any')
+field_type('RawResults', 'H', 'Any')
+field_type('RawResults', 'bhhh', 'Any')
+field_type('RawResults', 'initLogLike', 'float | None')
+field_type('RawResults', 'nullLogLike', 'float | None')
 RAW_REPLAY = '''
 import types
 import numpy as np
@@ -117,6 +135,9 @@ violated = not all(checks.values())
 detail = 'wrong: ' + ', '.join(k for k, v in checks.items() if not v)
 '''
 
+_NAMES = 'the_model.id_manager.free_betas.names'
+_BOUNDS_OF_Q = f'the_model.id_manager.bounds[the_model.id_manager.free_betas.indices[{_NAMES}[q]]]'
+
 contract(R + 'RawResults.__init__', 'C07', replay=RAW_REPLAY,
          types={'beta_values': 'list[float]', 'f_g_h_b': 'Any'},
          requires={'bounds_len': 'len(the_model.id_manager.bounds) == len(the_model.id_manager.free_betas.names)',
@@ -132,4 +153,32 @@ contract(R + 'RawResults.__init__', 'C07', replay=RAW_REPLAY,
                   'hessian': 'same(self.H, f_g_h_b.hessian)',
                   'bhhh': 'same(self.bhhh, f_g_h_b.bhhh)',
                   'initial_log_likelihood': 'same(self.initLogLike, the_model.initLogLike)',
-                  'convergence': 'same(self.convergence, the_model.convergence)'})
+                  'convergence': 'same(self.convergence, the_model.convergence)',
+                  # round 3 (m1, mutation survivors): the whole object, not only the fields estimate() reads back
+                  'null_log_likelihood': 'same(self.nullLogLike, the_model.nullLogLike)',
+                  'one_beta_record_per_estimate': f'len(self.betas) == ite(len(beta_values) <= len({_NAMES}), len(beta_values), len({_NAMES}))',
+                  'beta_records_hold_name_estimate_and_bounds_of_that_name':
+                      f"forall(lambda q: same(typed(self.betas[q], 'biogeme.results.Beta').name, {_NAMES}[q]) and "
+                      f"same(typed(self.betas[q], 'biogeme.results.Beta').value, beta_values[q]) and "
+                      f"same(typed(self.betas[q], 'biogeme.results.Beta').lb, {_BOUNDS_OF_Q}[0]) and "
+                      f"same(typed(self.betas[q], 'biogeme.results.Beta').ub, {_BOUNDS_OF_Q}[1]), 0, len(self.betas))",
+                  'gradient_norm': "same(self.gradientNorm, ite(f_g_h_b.gradient is None, None, app('scipy.linalg.norm', f_g_h_b.gradient)))",
+                  'sample_size_is_the_databases': 'same(self.sampleSize, the_model.database.get_sample_size())',
+                  'number_of_observations_is_the_databases': 'same(self.numberOfObservations, the_model.database.get_number_of_observations())',
+                  'excluded_data': 'same(self.excludedData, the_model.database.excludedData)',
+                  'draws': 'same(self.monte_carlo, the_model.monte_carlo) and same(self.numberOfDraws, the_model.number_of_draws) and '
+                           'same(self.typesOfDraws, the_model.database.typesOfDraws) and same(self.drawsProcessingTime, the_model.drawsProcessingTime)',
+                  'threads_and_messages': 'same(self.numberOfThreads, the_model.number_of_threads) and '
+                                          'same(self.optimizationMessages, the_model.optimizationMessages)',
+                  'bootstrap_sample_kept': 'same(self.bootstrap, bootstrap)',
+                  'bootstrap_time_kept_when_there_is_a_sample': 'implies(bootstrap is not None, same(self.bootstrap_time, the_model.bootstrap_time))',
+                  'no_second_order_table_yet': 'self.secondOrderTable is None'},
+         invariants={1: {'clauses': {
+             'count': 'len(self.betas) == _k',
+             # the records made so far exist, hence differ from the record the next iteration creates (spec of specs/c03c_specs.py)
+             'records_exist': 'forall(lambda q: c03c_allocated(self.betas[q]), 0, _k)',
+             'rec_name': f"forall(lambda q: same(typed(self.betas[q], 'biogeme.results.Beta').name, {_NAMES}[q]), 0, _k)",
+             'rec_value': f"forall(lambda q: same(typed(self.betas[q], 'biogeme.results.Beta').value, beta_values[q]), 0, _k)",
+             'rec_lb': f"forall(lambda q: same(typed(self.betas[q], 'biogeme.results.Beta').lb, {_BOUNDS_OF_Q}[0]), 0, _k)",
+             'rec_ub': f"forall(lambda q: same(typed(self.betas[q], 'biogeme.results.Beta').ub, {_BOUNDS_OF_Q}[1]), 0, _k)",
+             'names_kept': f'same(self.betaNames, {_NAMES}) and same(self.betaValues, beta_values)'}}})
